@@ -288,7 +288,7 @@ def make_trick_run(kind, plan, line_preempt=False):
             tricks.subprocess.Popen, tricks.kill_process = saved
         result = {"log": log, "failure": failure, "uncaught": list(sched.uncaught), "alive_end": table.alive_all(),
                   "procs": dict(table.procs), "schedule": [t[3] for t in sched.trace], "stuck": list(sched.stuck),
-                  "end_clock": table.clock()}
+                  "end_clock": table.clock(), "in_stop": sorted(in_stop)}
         if kind == "shell" and not line_preempt and len(plan["threads"]) == 1:
             idx = {t.name: k for k, t in enumerate(sched.order)}
             ms = lambda clk: int(round((clk - BASE) * 1000))
@@ -368,6 +368,9 @@ def judge_restart(plan, result):
                 return f"child {pid} still alive after stop() returned at {stop_t} (lifetime {s}..{e})"
         if isinstance(result["failure"], detsched.Deadlock):
             return f"threads left after stop(): {result['stuck']}"
+    if isinstance(result["failure"], detsched.Deadlock) and result.get("in_stop"):
+        # "stop ends all": a stop() that can never return (every thread blocked for good, nothing left to wait for)
+        return f"stop() of thread(s) {result['in_stop']} never returns: deadlock, blocked threads {result['stuck']}"
     if result["uncaught"]:
         return f"uncaught: {result['uncaught']!r}"
     return None
@@ -440,6 +443,11 @@ def run(res, tier, lean, proof_breaks=(), build_log=""):
         ("restart", {"lifetimes": [None] * 4, "kill_delay": 3, "threads": [[("start",), ("sleep", 2), ("stop",)], [("sleep", 2), ("event",)]]}),
         ("restart", {"lifetimes": [None] * 4, "kill_delay": 3, "threads": [[("start",), ("sleep", 3), ("stop",)], [("sleep", 2), ("event",)]]}),
         ("restart", {"lifetimes": [None] * 4, "kill_delay": 12, "threads": [[("start",), ("sleep", 3), ("stop",)], [("sleep", 2), ("event",)]]}),
+        # stop() at the very instant the watcher notices that the child has exited by itself (both at t = 0.5 s): the
+        # watcher's restart and stop() compete for the restart lock
+        ("restart", {"lifetimes": [4, None, None, None], "threads": [[("start",), ("sleep", 4), ("stop",)]]}),
+        ("restart", {"lifetimes": [4, None, None, None], "debounce": 2, "threads": [[("start",), ("sleep", 4), ("stop",)]]}),
+        ("restart", {"lifetimes": [4, 4, None, None], "threads": [[("start",), ("sleep", 8), ("stop",)], [("sleep", 4), ("event",)]]}),
         # start() after stop(), start() racing stop(), start() twice: no helper thread may outlive the stop() that did the work
         ("restart", {"lifetimes": [None] * 4, "debounce": 2, "threads": [[("start",), ("sleep", 2), ("stop",), ("start",), ("sleep", 6)]]}),
         ("restart", {"lifetimes": [None] * 4, "debounce": 2, "threads": [[("start",), ("sleep", 4)], [("stop",)]]}),
@@ -515,6 +523,29 @@ def run(res, tier, lean, proof_breaks=(), build_log=""):
     for which, pref, name in (("restart", "rst", "WD.Rst <-> AutoRestartTrick"), ("shell", "shell", "WD.Shell <-> ShellCommandTrick")):
         mine = [b for b in rbad if b[0].startswith(pref + " ")]
         if mine and not any(k == which for k, *_ in tjudged):
+            # correspondence broken, no explored run violated the property: search the real class for a failing schedule
+            # (one thread parked at every point while the others run on; long sticky stretches; then the same with every
+            # source line as a scheduling point), the judge as oracle
+            found = None
+            for kind, plan in plans:
+                if kind != which or plan.get("random"):
+                    continue
+                for lp in (False, True):
+                    run_s = make_trick_run(kind, plan, line_preempt=lp)
+                    cand = list(explore.park_runs(run_s, 120 if lp else 200)) + list(explore.random_runs(run_s, r, 40, 0.03))
+                    for _sched, result in cand:
+                        res.bump("failing_input_search_runs")
+                        v = (judge_restart if kind == "restart" else judge_shell)(plan, result)
+                        if v:
+                            found = (kind, plan, result, v)
+                            break
+                    if found:
+                        break
+                if found:
+                    break
+            if found:
+                tjudged.append(found)
+                continue
             mine.sort(key=lambda b: len(b[0]))
             l, i, o, plan = mine[0]
             res.violation(f"correspondence {name} broken (the C18 theorems about it are no longer tied to the code); every "
